@@ -295,7 +295,8 @@ func (p *FSM) Update(updates []sm.Entry) ([]sm.Entry, error) {
 			return nil, err
 		}
 
-		if len(res.Responses) > 0 {
+		// A transaction always reports its result, it carries the revision even when the executed branch is empty.
+		if _, txn := cmd.(commandTxn); txn || len(res.Responses) > 0 {
 			bts, err := res.MarshalVT()
 			if err != nil {
 				return nil, err
